@@ -19,11 +19,11 @@ type LimitsSpec struct {
 	// BogusAddrs: unreachable addresses handed to AddPeer in bursts (address list limit).
 	BogusAddrs int `json:"bogus_addrs,omitempty"`
 	// Flood: a leecher that stops reading and sends this many requests at once (0 = none).
-	Flood     int  `json:"flood,omitempty"`
+	Flood int `json:"flood,omitempty"`
 	// LateCancels: before the flood the leecher downloads this many blocks normally and sends a
 	// cancel for each after it has arrived (cancels that cross the block on the wire are normal).
-	LateCancels int `json:"late_cancels,omitempty"`
-	FloodFast bool `json:"flood_fast,omitempty"`
+	LateCancels int  `json:"late_cancels,omitempty"`
+	FloodFast   bool `json:"flood_fast,omitempty"`
 	// StopAt: the torrent is stopped (and later removed) at the end to check that every
 	// reservation was given back.
 	Balance bool `json:"balance,omitempty"`
